@@ -53,6 +53,21 @@ pub fn pkgname(input: &Value) -> Out {
             probes.push(json!({"p": codes(&p), "m": m}));
         }
     }
+    // the matcher splits where PkgName does: a pattern whose base is the text before an EARLIER
+    // '-' of the name must not match it
+    if !s.contains(['<', '>', '{', '}', '*', '?', '[', ']']) {
+        let dashes: Vec<usize> = s.match_indices('-').map(|(i, _)| i).collect();
+        for &i in dashes.iter().rev().skip(1).take(3) {
+            for tail in [">=0", "<999999", ">="] {
+                let p = format!("{}{}", &s[..i], tail);
+                let m = match Pattern::new(&p) {
+                    Ok(pat) => if pat.matches(&s) { "T" } else { "F" },
+                    Err(_) => "err",
+                };
+                probes.push(json!({"p": codes(&p), "m": m}));
+            }
+        }
+    }
     let nontrivial = (pn.pkgrevision().is_some() && s.contains('-')) as u64;
     Out::new(
         json!({"name": codes(pn.pkgname()), "base": codes(pn.pkgbase()), "ver": codes(pn.pkgversion()), "rev": rev,
